@@ -107,7 +107,7 @@ def _run(ctx, compare=True):
     for i, N in enumerate(Ns):
         ks = list(range(0, N))
         kinds = ["vanish", "close"]
-        if corpus[i].name in ("retr-unread", "retr", "stor", "two-sessions", "pasv-parked", "list-mlsd"):
+        if corpus[i].name in ("retr-unread", "retr", "stor", "two-sessions", "pasv-parked", "list-mlsd", "transfer-quit-pipelined", "abor-while-waiting", "retr-throttled"):
             kinds += ["vanish-control", "close+connect"]
         for kind in kinds:
             # split long scripts so that the pool stays busy
